@@ -316,3 +316,25 @@ func specIsCtl(m hsms.Message) bool {
 //@ loop 1 preserves [suppress] zzCalls("hsmsss.(*ConnectionMetrics).incLinktestSuppressed") == 1 ==> sr != nil && zzCalls("hsmsss.(*ConnectionMetrics).incLinktestSend") == 0
 //@ loop 1 preserves [nodrop]   zzCalls("hsms.(TransportRuntime).TCPDown") == 0
 //@ ensures [down] zzCalls("hsms.(TransportRuntime).TCPDown") <= 1
+
+// ---- C19: one prober per Selected session. Entering Selected (startLinktest) always spawns a fresh prober when
+// auto-linktest is on, cancelling a stale one first; leaving Selected (stopLinktest) cancels it and clears the
+// slot, so the next Selected entry starts again from a clean slot.
+
+//@ func (*transport).startLinktest
+//@ nosafety nil-deref nil-iface
+//@ requires t != nil
+//@ modifies t.linktestCancel
+//@ emits go, hsms.(TransportRuntime).LinktestInterval, fn:linktestCancel
+//@ ensures [spawn] zzRet[time.Duration]("hsms.(TransportRuntime).LinktestInterval") > 0 ==> zzCalls("go") == 1 && t.linktestCancel != nil
+//@ ensures [stale] zzRet[time.Duration]("hsms.(TransportRuntime).LinktestInterval") > 0 && old(t.linktestCancel) != nil ==> zzCalls("fn:linktestCancel") == 1
+//@ ensures [off]   zzRet[time.Duration]("hsms.(TransportRuntime).LinktestInterval") <= 0 ==> zzCalls("go") == 0 && zzCalls("fn:linktestCancel") == 0
+//@ ensures [once]  zzCalls("hsms.(TransportRuntime).LinktestInterval") == 1 && zzCalls("go") <= 1
+
+//@ func (*transport).stopLinktest
+//@ nosafety nil-deref nil-iface
+//@ requires t != nil
+//@ modifies t.linktestCancel
+//@ emits fn:linktestCancel
+//@ ensures [cleared]   t.linktestCancel == nil
+//@ ensures [cancelled] (old(t.linktestCancel) != nil) == (zzCalls("fn:linktestCancel") == 1) && zzCalls("fn:linktestCancel") <= 1
